@@ -47,6 +47,13 @@ impl VT for Big {
         Big([t as u64; 9])
     }
 }
+pub struct Page([u64; 1100]);
+impl VT for Page {
+    const NAME: &'static str = "8800 bytes";
+    fn mk(t: u32) -> Self {
+        Page([t as u64; 1100])
+    }
+}
 impl VT for String {
     const NAME: &'static str = "String";
     fn mk(t: u32) -> Self {
@@ -312,6 +319,7 @@ pub fn run_vtype(case: &VCase) -> CaseReport {
         cmp::<Zst2>(case, &base, prop)?;
         cmp::<u8>(case, &base, prop)?;
         cmp::<Big>(case, &base, prop)?;
+        cmp::<Page>(case, &base, prop)?;
         cmp::<String>(case, &base, prop)?;
         cmp::<Option<Box<u32>>>(case, &base, prop)?;
         // non-trivial: something was evicted and something was updated
@@ -428,9 +436,123 @@ macro_rules! ledger_kind {
     }};
 }
 
+thread_local! {
+    static ZLIVE: std::cell::Cell<i64> = const { std::cell::Cell::new(0) };
+}
+/// a zero-sized type with a destructor (all instances are equal and hash alike)
+pub struct ZDrop;
+impl ZDrop {
+    fn new() -> ZDrop {
+        ZLIVE.with(|z| z.set(z.get() + 1));
+        ZDrop
+    }
+}
+impl Drop for ZDrop {
+    fn drop(&mut self) {
+        ZLIVE.with(|z| z.set(z.get() - 1));
+    }
+}
+impl core::hash::Hash for ZDrop {
+    fn hash<H: core::hash::Hasher>(&self, h: &mut H) {
+        h.write_u8(0)
+    }
+}
+impl PartialEq for ZDrop {
+    fn eq(&self, _: &Self) -> bool {
+        true
+    }
+}
+impl Eq for ZDrop {}
+/// an inline value of ~20 KiB without a destructor (only the node allocation can leak)
+pub struct Slab([u64; 2600]);
+
+/// variants 2..4 of the ownership ledger: zero-sized keys / values with destructors, and
+/// entries larger than 16 KiB (block count only)
+fn run_dropglue_zst(case: &VCase, variant: usize) -> Result<(), String> {
+    ZLIVE.with(|z| z.set(0));
+    macro_rules! go {
+        ($K:ty, $V:ty, $mk_k:expr, $mk_v:expr, $retained_objs:expr, $tag:expr) => {{
+            let what = format!("{} with {}", case.kind.short(), $tag);
+            let check = |c_len: usize, i: usize, op: &VOp| -> Result<(), String> {
+                let live = ZLIVE.with(|z| z.get());
+                let want: i64 = $retained_objs(c_len);
+                if want >= 0 && live != want {
+                    return Err(format!("step {i} {op:?} on {what}: {live} zero-sized object(s) with a destructor are live, the cache retains {c_len} entr(y/ies)"));
+                }
+                Ok(())
+            };
+            macro_rules! drive_one {
+                ($c:expr, $ret:expr) => {{
+                    let mut c = $c;
+                    for (i, op) in case.ops.iter().enumerate() {
+                        let t = crate::ops::token(i, 0);
+                        match op {
+                            VOp::Put(k) | VOp::PeekOrPut(k) | VOp::ContainsOrPut(k) | VOp::PutProtected(k) => drop(c.put($mk_k(*k), $mk_v(t))),
+                            VOp::Get(k) | VOp::GetMut(k) => {
+                                let _ = c.get(&$mk_k(*k)).is_some();
+                            }
+                            VOp::Peek(k) | VOp::PeekMut(k) | VOp::Contains(k) => {
+                                let _ = c.peek(&$mk_k(*k)).is_some();
+                            }
+                            VOp::Remove(k) => drop(c.remove(&$mk_k(*k))),
+                            VOp::Purge => c.purge(),
+                            _ => {}
+                        }
+                        check($ret(&c), i, op)?;
+                    }
+                    drop(c);
+                    Ok::<(), String>(())
+                }};
+            }
+            match case.kind {
+                Kind::Lru => drive_one!(RawLRU::<$K, $V>::new(case.a).map_err(|e| e.to_string())?, |c: &RawLRU<$K, $V>| c.len()),
+                Kind::Seg => drive_one!(SegmentedCache::<$K, $V>::new(case.a, case.b).map_err(|e| e.to_string())?, |c: &SegmentedCache<$K, $V>| c.len()),
+                Kind::TwoQ => drive_one!(TwoQueueCache::<$K, $V>::new(case.a.max(2)).map_err(|e| e.to_string())?, |c: &TwoQueueCache<$K, $V>| c.len() + c.ghost_len()),
+                Kind::Arc => drive_one!(AdaptiveCache::<$K, $V>::new(case.a).map_err(|e| e.to_string())?, |c: &AdaptiveCache<$K, $V>| c.len() + c.recent_evict_len() + c.frequent_evict_len()),
+                _ => drive_one!(WTinyLFUCache::<$K, $V>::with_sizes(case.a, case.b, case.b, 16).map_err(|e| e.to_string())?, |c: &WTinyLFUCache<$K, $V>| c.len()),
+            }?;
+            let live = ZLIVE.with(|z| z.get());
+            if live != 0 {
+                return Err(format!("{what}: after the drop of the cache {live} zero-sized object(s) with a destructor were never dropped (negative = dropped twice)"));
+            }
+            Ok(())
+        }};
+    }
+    match variant {
+        2 => go!(ZDrop, u32, |_k: u16| ZDrop::new(), |t: u32| t, |n: usize| n as i64, "a zero-sized key type with a destructor (all keys equal), V = u32"),
+        3 => go!(u16, ZDrop, |k: u16| k, |_t: u32| ZDrop::new(), |n: usize| n as i64, "K = u16, a zero-sized value type with a destructor"),
+        _ => go!(u16, Slab, |k: u16| k, |t: u32| Slab([t as u64; 2600]), |_n: usize| -1i64, "K = u16, a 20 KiB inline value (node allocations are counted)"),
+    }
+}
+
 pub fn run_dropglue(case: &VCase) -> CaseReport {
     let mut rep = CaseReport::default();
     rep.steps = case.ops.len();
+    for variant in 2..5 {
+        reset_case();
+        let _ = take_last_panic();
+        let blocks0 = crate::alloc::live_blocks();
+        let r = catch_unwind(AssertUnwindSafe(|| run_dropglue_zst(case, variant)));
+        match r {
+            Ok(Ok(())) => {
+                if crate::alloc::TRACKING && crate::alloc::live_blocks() != blocks0 {
+                    rep.violation = Some(Violation { prop: "C04", step: 0, msg: format!("{} heap block(s) still live after the drop of a {} cache ({})", crate::alloc::live_blocks() - blocks0, case.kind.short(), ["", "", "zero-sized keys with a destructor", "zero-sized values with a destructor", "20 KiB inline values"][variant]), sig: format!("dropglue/{}/leak-blocks", case.kind.short()) });
+                    return rep;
+                }
+            }
+            Ok(Err(msg)) => {
+                if msg.contains("InvalidSize") || msg.contains("invalid") {
+                    continue;
+                }
+                rep.violation = Some(Violation { prop: "C04", step: 0, msg, sig: format!("dropglue/{}/ledger-zst", case.kind.short()) });
+                return rep;
+            }
+            Err(_) => {
+                rep.aborted_by_panic = Some(take_last_panic().unwrap_or_default());
+                return rep;
+            }
+        }
+    }
     for variant in 0..2 {
         reset_case();
         let _ = take_last_panic();
